@@ -530,7 +530,8 @@ class Fn:
             if g and g[0] == "const":
                 return k(self.mod.const_coqname(g[1]), self.mod.constant(g[1], e), env)
             if g and g[0] == "selfattr":
-                return k("a_" + g[1], self.self_attrs[g[1]], env)
+                ty = env["self." + g[1]][0] if ("self." + g[1]) in env else self.self_attrs[g[1]]
+                return k("a_" + g[1], ty, env)
             if isinstance(e.value, ast.Name) and e.value.id not in env and e.value.id in self.cfg.imports:
                 bad(e, f"{e.value.id}.{e.attr} outside a supported call")
 
@@ -698,20 +699,26 @@ class Fn:
                     t = f"(py_in {self.eqb_for(tx, e)} {x} [{'; '.join(t for t, _ in items)}])"
                     return k(t if isinstance(op, ast.In) else f"(negb {t})", "bool", e2)
                 return self.exprs([e.left] + list(right.elts), env, lit, po)
+            var = None
+            if isinstance(e.left, ast.Name) and e.left.id in env:
+                var = (e.left.id, VPREFIX + e.left.id)
+            elif isinstance(e.left, ast.Attribute):
+                g = self.resolve_global(e.left)
+                if g and g[0] == "selfattr" and ("self." + g[1]) in env:
+                    var = ("self." + g[1], "a_" + g[1])
             if (isinstance(op, (ast.Is, ast.IsNot)) and isinstance(right, ast.Constant) and right.value is None
-                    and isinstance(e.left, ast.Name) and e.left.id in env and isinstance(env[e.left.id][0], tuple)
-                    and env[e.left.id][0][0] == "opt"):
-                # x is None on an Optional[T] variable: case split; x has type T / None in the arms
+                    and var is not None and isinstance(env[var[0]][0], tuple) and env[var[0]][0][0] == "opt"):
+                # x is None on an Optional[T] variable / self attribute: case split; x has type T / None in the arms
                 if po:
                     raise Impure("case split")
-                name = e.left.id
+                name, cv = var
                 (_, inner), ver = env[name]
                 e_none, e_some = dict(env), dict(env)
                 e_none[name] = ("none", ver)
                 e_some[name] = (inner, ver)
                 yes, no = ("true", "false") if isinstance(op, ast.Is) else ("false", "true")
-                return (f"match {VPREFIX}{name} with\n| None =>\n{ind(k(yes, 'bool', e_none), 4)}\n"
-                        f"| Some {VPREFIX}{name} =>\n{ind(k(no, 'bool', e_some), 4)}\nend")
+                return (f"match {cv} with\n| None =>\n{ind(k(yes, 'bool', e_none), 4)}\n"
+                        f"| Some {cv} =>\n{ind(k(no, 'bool', e_some), 4)}\nend")
             if (isinstance(op, (ast.Is, ast.IsNot, ast.Eq, ast.NotEq)) and isinstance(e.left, ast.Call)
                     and isinstance(e.left.func, ast.Name) and e.left.func.id == "type" and "type" not in env
                     and len(e.left.args) == 1 and not e.left.keywords):
@@ -1029,6 +1036,8 @@ class Fn:
             name = f.id
             if name in self.mod.module_names:
                 bad(e, f"call of {name}, which the module rebinds")
+            if name == "sorted" and len(e.args) == 1 and all(kw.arg == "key" for kw in e.keywords) and len(e.keywords) <= 1:
+                return self.sorted_(e, env, k, po)
             if e.keywords:
                 bad(e, "keyword arguments")
             if name == "len" and len(e.args) == 1:
@@ -1121,6 +1130,50 @@ class Fn:
                 bad(e, f"method .{meth} of {tr} with arguments {targs}")
             return self.exprs([f.value] + list(e.args), env, method, po)
         bad(e, "call")
+
+    def lt_term(self, t, node):
+        """Coq function K -> K -> bool for Python's < on values of static type t (int, bool as int, str, tuples of those)"""
+        if t == "int":
+            return "Z.ltb"
+        if t == "str":
+            return "py_str_ltb"
+        if t == "bool":
+            return "(fun a b => negb a && b)"
+        if is_tuple(t) and t[1]:
+            n = len(t[1])
+            pa = "'(" + ", ".join(f"a{i}" for i in range(n)) + ")" if n > 1 else "a0"
+            pb = "'(" + ", ".join(f"b{i}" for i in range(n)) + ")" if n > 1 else "b0"
+            body = "false"
+            for i in reversed(range(n)):
+                lt = self.lt_term(t[1][i], node)
+                last = i == n - 1
+                body = (f"{lt} a{i} b{i}" if last else
+                        f"if {lt} a{i} b{i} then true else if {lt} b{i} a{i} then false else {body}")
+            return f"(fun {pa} {pb} => {body})"
+        bad(node, f"ordering of values of type {t}")
+
+    def sorted_(self, e, env, k, po):
+        """sorted(it[, key=f]): all keys first (left to right), then the stable order by < on the keys"""
+        keyfn = e.keywords[0].value if e.keywords else None
+
+        def with_iter(it, telt, env1):
+            if telt == "?":
+                return k("[]", ("list", "?"), env1)
+            if keyfn is None:
+                return k(f"(py_sorted {self.lt_term(telt, e)} {it})", ("list", telt), env1)
+            g = self.resolve_global(keyfn) if isinstance(keyfn, (ast.Name, ast.Attribute)) else None
+            if not (g and g[0] == "func") or (isinstance(keyfn, ast.Name) and keyfn.id in env1):
+                bad(e, "sorted(key=...) with something other than one of the module's functions")
+            key = g[1]
+            if self.mod.func_nodes[key][1] == "method":
+                bad(e, "sorted(key=<instance method>)")
+            ptypes = self.mod.signature(key, [telt], e)
+            if len(ptypes) != 1 or not same_type(ptypes[0], telt):
+                bad(e, f"key function {key} does not take one {telt}")
+            kt = self.mod.function(key, e)
+            head = " ".join([self.mod.func_coqname(key)] + self.cfg.head_args)
+            return self.bind(f"py_sorted_by ({head}) {self.lt_term(kt, e)} {it}", ("list", telt), k, po, e, env1)
+        return self.iterable(e.args[0], env, with_iter, po)
 
     def any_all(self, e, name, gen, env, k, po):
         if len(gen.generators) != 1 or gen.generators[0].ifs or gen.generators[0].is_async:
@@ -1590,6 +1643,8 @@ class Fn:
             bad(node, f"{self.name} has {len(names)} parameters, {len(self.ptypes)} expected")
         self.owned = self.find_owned(node.body)
         env = {}
+        for a_name, a_ty in self.self_attrs.items():
+            env["self." + a_name] = (a_ty, 0)
         for n, t in zip(names, self.ptypes):
             env = self.setvar(env, n, t, node)
 
@@ -1822,6 +1877,30 @@ class Translator:
                 binders.append((binder, ty))
         fn.subst = subst
         text, rtype = fn.translate_expression(expr, binders, env)
+        self.func_defs.append(text)
+        self.done["<expr>" + coqname] = rtype
+        return rtype
+
+    def add_block(self, coqname, stmts, params, cls=None, selfname=None):
+        """a list of statements (ending in return on every path) as a function.
+        params: [(python expression text or local name, coq binder or None, type)]"""
+        subst, names, ptypes = {}, [], []
+        args = []
+        for text, binder, ty in params:
+            if IDENT.match(text):
+                names.append(text)
+            else:                                          # a sub-expression that becomes a parameter
+                nm = "p_" + re.sub(r"\W+", "_", text).strip("_")
+                subst[ast.dump(ast.parse(text, mode="eval").body)] = (VPREFIX + nm, ty)
+                names.append(nm)
+            ptypes.append(ty)
+        fdef = ast.parse("def _b_(" + ", ".join(([selfname] if selfname else []) + names) + "): pass").body[0]
+        fdef.body = list(stmts)
+        if selfname == "cls":
+            fdef.decorator_list = [ast.Name(id="classmethod", ctx=ast.Load())]
+        ast.fix_missing_locations(fdef)
+        fn = Fn(self, self.cfg.prefix + coqname, fdef, ptypes, cls, selfname, None, subst)
+        text, rtype = fn.translate()
         self.func_defs.append(text)
         self.done["<expr>" + coqname] = rtype
         return rtype
@@ -2087,6 +2166,20 @@ def f_make(color, bg, bold):
     c, d = K.make(color, bg, bold, True)
     return str(len(a)) + "/" + str(len(b)) + "/" + str(len(c)) + str(len(d))
 
+def _k2(p):
+    return len(p.strip("a")), p
+
+def _key(c):
+    col = c.rstrip('0123456789')
+    return len(col), col, int(c[len(col):])
+
+def f_sorted(s):
+    return "".join(sorted([c + d for c, d in zip(s, s[1:])], key=_k2)) + "|" + "".join(sorted(s))
+
+def f_coord(a, b, c):
+    cs = sorted([a, b, c, a], key=_key)
+    return f"{cs[0]}:{cs[-1]}" + str(len(cs))
+
 def f_dyn(x, y):
     z = x + y
     if x < y:
@@ -2097,7 +2190,8 @@ SELFTEST_ENTRY = {"f_arith": ["int", "int"], "f_index": ["str", "int"], "f_slice
                   "f_strip": ["str", "str"], "f_just": ["str", "int"], "f_dict": ["str"], "f_try": ["str", "int"],
                   "f_try2": ["str"], "f_bool": ["int", "int"], "f_loop": ["int"], "f_join": ["str"],
                   "f_call": ["str", "int"], "f_fmt": ["int", "str"], "f_int": ["str"], "f_int2": ["str"],
-                  "K.elem": ["dyn", "bool"], "K.pick": ["dyn", "dyn"], "f_make": ["dyn", "dyn", "dyn"], "f_dyn": ["dyn", "dyn"]}
+                  "K.elem": ["dyn", "bool"], "K.pick": ["dyn", "dyn"], "f_make": ["dyn", "dyn", "dyn"], "f_dyn": ["dyn", "dyn"],
+                  "f_sorted": ["str"], "f_coord": ["str", "str", "str"]}
 
 
 def selftest(workdir="/tmp/pytranslate_selftest"):
@@ -2172,6 +2266,8 @@ def selftest(workdir="/tmp/pytranslate_selftest"):
             pools = [nums]
         if key in ("f_loop", "f_call"):
             pools = [p if p is not ints else ints[:-1] for p in pools]
+        if key == "f_coord":
+            pools = [["A1", "Z10", "AA2", "B07", "AB", "7", ""]] * 3
         if key == "f_make":
             pools = [dyns, [None, "RED", 5, (9, 9, 9)], [None, True, 0, "x"]]
         rt = tr.done[key]
